@@ -126,15 +126,14 @@ LoadStoreIdempotent == [][(\E u \in BOOLEAN : Load(u)) => disk' = disk]_vars
 (* "including user-supplied variables, the selected platform ..." *)
 CreationOptionsSurvive == /\ mem.live => (mem.plat = pk.plat /\ mem.uv = pk.uv)
                           /\ disk.live => (disk.plat = pk.plat /\ disk.uv = pk.uv)
-(* "... and every loop iteration instantiated so far": nothing that was stored is ahead of memory unless memory was reloaded *)
 TypeOK == /\ pk \in Packages
           /\ mem.iters \in 0 .. MaxIter /\ disk.iters \in 0 .. MaxIter
           /\ mem.patch \in 0 .. MaxPatch /\ disk.patch \in 0 .. MaxPatch
           /\ (~pk.loop) => (mem.iters = 0 /\ disk.iters = 0)
-(* the observable facts of what is stored never depend on anything but the description (View is a function) and    *)
-(* the stored replica count follows the user variables for every history                                            *)
-StoredViewConsistent == disk.live => /\ View(pk, disk).uv = (IF pk.uv = "none" THEN "d-uv" ELSE "U-uv")
-                                     /\ View(pk, disk).nrep = Replicas(pk, [uv |-> pk.uv])
+(* what is stored is never ahead of the live objects: it was written by them (Store, Iterate(store)) or they were  *)
+(* rebuilt from it (Load); a Store captures everything instantiated / patched so far                               *)
+DiskNeverAhead == disk.live => (mem.live /\ disk.iters <= mem.iters /\ disk.patch <= mem.patch)
+StoreCapturesAll == [][Store => disk' = mem]_vars
 
 ---------------------------------------------------------------------------
 (* Emission: every transition with a shortest history reaching it (ACTION_CONSTRAINT, evaluated on every step) *)
